@@ -126,11 +126,37 @@ def try_constructor(cls, arg, value):
         return False, exc
 
 
-def try_setattr_marshal(p, cls, arg, value):
+ORIGINS = ('constructed', 'decoded', 'copied', 'deep-copied', 'unpickled')
+
+
+def obtain(p, m, cls, origin):
+    """A method object as an application comes by one: built, received from
+    the decoder, copied, pickled and back. Where it comes from must not
+    matter to what its encode validates. None: not obtainable that way."""
+    import copy
+    import pickle
+    try:
+        if origin == 'constructed':
+            return cls()
+        if origin == 'decoded':
+            data, _f = refcodec.enc_method_frame(m, corpus.default_vector(m),
+                                                 1)
+            obj = p.frame.unmarshal(data)[2]
+            return obj if type(obj) is cls else None
+        if origin == 'copied':
+            return copy.copy(cls())
+        if origin == 'deep-copied':
+            return copy.deepcopy(cls())
+        return pickle.loads(pickle.dumps(cls()))
+    except Exception:  # noqa - deprecated methods warn, some refuse pickling
+        return None
+
+
+def try_setattr_marshal(p, cls, arg, value, obj=None):
     """Change the attribute after construction, then encode the SAME object
     three times: the verdict must be the same every time (a validation
     result must not be remembered across a failed attempt)."""
-    obj = cls()
+    obj = cls() if obj is None else obj
     setattr(obj, arg, value)
     verdicts = []
     other = None
@@ -184,6 +210,20 @@ def check_value(ctx, m, arg, kind, value, ways=('constructor', 'setattr',
             # (a 256-character queue name cannot be a short string) are not
             expect(ctx, site, value, way, raised, None if not raised else
                    None, is_broken, case)
+            # ... and the same on objects that were not built by the caller
+            for origin in ORIGINS[1:]:
+                obj = obtain(p, m, cls, origin)
+                if obj is None:
+                    continue
+                ctx.case((m.name, arg, origin, value
+                          if isinstance(value, (str, int)) else repr(value)),
+                         True)
+                raised, _o = try_setattr_marshal(p, cls, arg, value, obj)
+                ctx.calls(4)
+                if isinstance(raised, str):
+                    raised = 'True' in raised and 'False' not in raised
+                expect(ctx, site, value, 'setattr on a %s object' % origin,
+                       raised, None, is_broken, case)
         else:
             vec = list(corpus.default_vector(m))
             idx = [a[0] for a in m.args].index(arg)
@@ -265,13 +305,18 @@ def check_reuse(ctx, m, arg, kind):
         for depth in (2, 3):
             for seq in itertools.product(range(n), repeat=depth):
                 # encode after: every step / first and last / last only
-                for mode in ('all', 'ends', 'last'):
+                for mode in ('all', 'ends', 'last', 'last, received object'):
                     ctx.case((m.name, arg, 'reuse', length, seq, mode), True,
                              sample=lambda: {
                                  'site': '%s.%s' % (m.name, arg),
                                  'assigned': [alpha[i][0] for i in seq],
                                  'encode_after': mode})
                     obj = cls()
+                    if mode == 'last, received object':
+                        # this history once more on a received object
+                        obj = obtain(p, m, cls, 'decoded')
+                        if obj is None or depth != 2:
+                            continue
                     for pos, i in enumerate(seq):
                         setattr(obj, arg, fresh(alpha[i][0]))
                         if not (mode == 'all' or pos == depth - 1 or
